@@ -5,7 +5,7 @@ sys.path.insert(0, os.path.dirname(os.path.abspath(__file__)))
 import e2
 h, prec = sys.argv[1], sys.argv[2]; case = tuple(sys.argv[3:])
 extra = tuple(os.environ.get("DEV_EXTRA_SRC", "").split()) if os.environ.get("DEV_EXTRA_SRC") else ()
-wd = "/tmp/dev_e2_%s%s" % (prec, "_a" if os.environ.get("DEV_ASAN") else "")
+wd = "/tmp/dev_e2_%s%s%s" % (prec, "_a" if os.environ.get("DEV_ASAN") else "", os.environ.get("DEV_TAG", ""))
 b = e2.Build(wd, prec, asan=bool(os.environ.get("DEV_ASAN")), extra_src=extra)
 if not os.path.exists(wd + "/libt.bc") or os.environ.get("DEV_REBUILD"): b.build_lib()
 else: b.libbc = wd + "/libt.bc"
